@@ -273,6 +273,31 @@ def builders(model):
             'C' if cx else 'R')] = lambda I, S, cx=cx: inst(
                 I, 'PointwiseInnerAdjoint', vf(cx, None)[0],
                 sym_elem(vf(cx, None)[1], 'g'), weighting=qw())
+    # power spaces of length one and two (the loops over the remaining
+    # components are empty / run once)
+    def vfn(cx, n, weighted):
+        X = NSpace((2,), 'complex128' if cx else 'float64', Rat.var('w'))
+        w = [Rat.var('p%d' % i) for i in range(n)] if weighted else None
+        return X, NPSpace([X] * n, w)
+    for cx in (False, True):
+        for n in (1, 2):
+            for weighted in (False, True):
+                t = '%s,length %d%s' % ('C' if cx else 'R', n, ',pspace '
+                                        'weights' if weighted else '')
+                B['PointwiseInner[%s]' % t] = (
+                    lambda I, S, cx=cx, n=n, weighted=weighted: inst(
+                        I, 'PointwiseInner', vfn(cx, n, weighted)[1],
+                        sym_elem(vfn(cx, n, weighted)[1], 'g')))
+                B['PointwiseInner[%s,weighting=q]' % t] = (
+                    lambda I, S, cx=cx, n=n, weighted=weighted: inst(
+                        I, 'PointwiseInner', vfn(cx, n, weighted)[1],
+                        sym_elem(vfn(cx, n, weighted)[1], 'g'),
+                        weighting=NA(objarr([Rat.var('q%d' % i)
+                                             for i in range(n)]),
+                                     'float64')))
+                B['PointwiseSum[%s]' % t] = (
+                    lambda I, S, cx=cx, n=n, weighted=weighted: inst(
+                        I, 'PointwiseSum', vfn(cx, n, weighted)[1]))
     # finite differences on a uniformly discretized 4 x 3 model space with
     # symbolic cell sides h0, h1: default weighting (cell volume), another
     # constant, per-cell weights (what `nodes_on_bdry=True` gives)
